@@ -686,7 +686,12 @@ package plenccodec
 //@   loop 1 decreases len(data) - offset
 //@   ensures[C04] err == nil ==> 0 <= n && n <= len(data)
 //@   # every entry puts out a value: a JSON null has a type field and no value field, and is put out all the same
-//@   ensures[C16,C13] err == nil && len(data) > 0 ==> called_Outputter_String || called_Outputter_Int64 || called_Outputter_Float64 || called_Outputter_Bool || called_Outputter_Raw || called_Descriptor_read
+//@   # the flag follows the events: it is raised exactly by an iteration that handles a value field, and such an
+//@   # iteration puts out a value (or fails); an entry without a value field gets its null at the end
+//@   loop 1 step[C16,C13] seenValue && !head_seenValue ==> called_Outputter_String || called_Outputter_Int64 || called_Outputter_Float64 || called_Outputter_Bool || called_Outputter_Raw || called_Descriptor_read
+//@   loop 1 step[C16,C13] head_seenValue ==> seenValue
+//@   ensures[C16,C13] err == nil && loopdone_1 && !exit_seenValue ==> called_Outputter_Raw && bytes(call_Outputter_Raw_arg1) == "null"
+//@   ensures[C16,C13] err == nil ==> loopdone_1
 
 // ---------------------------------------------------------------------------
 // struct encoders never look at field names (C03: renaming a field cannot change the encoding)
@@ -784,6 +789,13 @@ package plenccodec
 //@   safety C14
 //@   ensures[C14,C09] result.Type == 5 && result.LogicalType == 4 && !result.ExplicitPresence && result.Index == 0 && len(result.Name) == 0 && len(result.TypeName) == 0
 //@   ensures[C14] len(result.Elements) == 1 && result.Elements[0].Type == 6 && result.Elements[0].LogicalType == 5 && len(result.Elements[0].Elements) == 2
+//@   # the entry's two fields are what the key and value codecs describe, as fields 1 "key" and 2 "value"
+//@   ensures[C14] result.Elements[0].Elements[0].Index == 1 && result.Elements[0].Elements[1].Index == 2
+//@   ensures[C14] bytes(result.Elements[0].Elements[0].Name) == "key" && bytes(result.Elements[0].Elements[1].Name) == "value"
+//@   ensures[C14] result.Elements[0].Elements[0].Type == @plenccodec.Codec.Descriptor(c.keyCodec).Type && result.Elements[0].Elements[0].LogicalType == @plenccodec.Codec.Descriptor(c.keyCodec).LogicalType && result.Elements[0].Elements[0].ExplicitPresence == @plenccodec.Codec.Descriptor(c.keyCodec).ExplicitPresence
+//@   ensures[C14] result.Elements[0].Elements[0].Elements == @plenccodec.Codec.Descriptor(c.keyCodec).Elements && result.Elements[0].Elements[0].TypeName == @plenccodec.Codec.Descriptor(c.keyCodec).TypeName
+//@   ensures[C14] result.Elements[0].Elements[1].Type == @plenccodec.Codec.Descriptor(c.valueCodec).Type && result.Elements[0].Elements[1].LogicalType == @plenccodec.Codec.Descriptor(c.valueCodec).LogicalType && result.Elements[0].Elements[1].ExplicitPresence == @plenccodec.Codec.Descriptor(c.valueCodec).ExplicitPresence
+//@   ensures[C14] result.Elements[0].Elements[1].Elements == @plenccodec.Codec.Descriptor(c.valueCodec).Elements && result.Elements[0].Elements[1].TypeName == @plenccodec.Codec.Descriptor(c.valueCodec).TypeName
 
 // ---------------------------------------------------------------------------
 // package initialisation establishes the tag constants (see /verif/spec/core.spec: global ...)
